@@ -378,6 +378,14 @@ def _randomize_direct(ctx, env):
         pairs = sorted(rng.choice(npair, size=int(rng.integers(1, 4)), replace=False).tolist()) \
             if has_pairs else [0, 1]
         configs.append((f"custom{c}", _random_ranges(rng), pairs, ctx.budget(40, 400)))
+    # ranges that START AT ZERO ("between a frictionless joint / massless payload and nominal"): legal, and
+    # exactly where a multiplicative (log-space) sampler breaks
+    configs.append(("from-zero", {"friction": (0.0, 1.0), "floss": (0.0, 1.0), "armature": (0.0, 1.05),
+                                  "mass": (0.0, 1.1), "torso_offset": (0.0, 1.0)},
+                    _foot_pairs(env) if has_pairs else [0, 1], ctx.budget(40, 400)))
+    configs.append(("degenerate", {"friction": (0.7, 0.7), "floss": (1.0, 1.0), "armature": (1.0, 1.0),
+                                   "mass": (1.0, 1.0), "torso_offset": (0.0, 0.0)},
+                    _foot_pairs(env) if has_pairs else [0, 1], ctx.budget(16, 64)))
     if not has_pairs:
         ctx.note("randomize_friction has no pair_ids parameter: direct calls randomise the first "
                  "two compiled pairs")
